@@ -210,7 +210,12 @@ func (cc *cacheController) coRead(r ccReadReq) ccReadResp {
 		return ccReadResp{}
 	}
 	cc.post = post
-	cc.l1RLockSems[getL1AlignedMemoryAddress(r.addrs)] = sem
+	if resp.exclusive {
+		// Released with Unlock if the request is cancelled
+		cc.l1LockSems[getL1AlignedMemoryAddress(r.addrs)] = sem
+	} else {
+		cc.l1RLockSems[getL1AlignedMemoryAddress(r.addrs)] = sem
+	}
 	return cc.read.ExecuteWithCheckpoint(r, func(r ccReadReq) ccReadResp {
 		for _, pending := range resp.pendings {
 			if !pending.isDone() {
@@ -309,6 +314,7 @@ func (cc *cacheController) coReadFromL1(r ccReadReq) ccReadResp {
 		cc.post = nil
 		cc.read.Reset()
 		delete(cc.l1RLockSems, getL1AlignedMemoryAddress(r.addrs))
+		delete(cc.l1LockSems, getL1AlignedMemoryAddress(r.addrs))
 		return ccReadResp{data, true}
 	})
 }
